@@ -5,7 +5,7 @@
 # Not part of MANIFEST.json (development tool). Log: /tmp/reverify_seeds.log
 scratch=${SCRATCH:-/tmp/mut/repo}
 cd "$(dirname "$0")/.."
-exec 9>/tmp/run_seed.lock; flock 9
+exec 9>/tmp/run_seed$(echo $scratch | tr / _).lock; flock 9
 : > /tmp/reverify_seeds.log
 ids=${@:-$(ls seeded)}
 for id in $ids; do
